@@ -212,6 +212,9 @@ static void cells_c11(int thorough_)
 		/* the client is not the server's first: userids 9, 10 and 15 (the userid travels as a hex digit in data queries and as a raw byte, Base32-coded, elsewhere) */
 		for (int pre = 9; pre <= 15; pre += (pre == 9 ? 1 : 5)) { c11_pre = pre; for (int x = 0; x < 36; x++) for (int l = 0; l < 2; l++) c11_cell(7, 0, add_relay(x, x, 0, LIM_Q[l].limit, LIM_Q[l].edns)); }
 		c11_pre = 0;
+		/* relays that honour EDNS0 per query: a query carrying the OPT record is answered up to the relay's limit, one without it
+		 * up to 512 bytes (seeded C11-h: pings sent without OPT while the probes carry it), and relays that ignore it */
+		for (int x = 0; x < 36; x++) for (int l = 1; l < 5; l++) c11_cell(7, 0, add_relay(x, x, 0, LIM_T[l].limit, LIM_T[l].edns));
 		return;
 	}
 	for (int qx = 0; qx < 36; qx++) for (int ax = 0; ax < 36; ax++) for (int t = 0; t < 7; t++) for (int l = 0; l < 6; l++) c11_cell(7, 0, add_relay(qx, ax, 1u << t, LIM_T[l].limit, LIM_T[l].edns));
